@@ -72,10 +72,12 @@ def validate(chk, path, name, module="Trace_Lang", consts=None, fac="UStdFacR", 
     w = os.path.join(vlib.WORK, name)
     os.makedirs(w, exist_ok=True)
     cfg = os.path.join(w, "%s.cfg" % module)
-    if module == "Trace_Parse":
+    if module in ("Trace_Parse", "Trace_Outcome"):
         write_cfg(cfg, dict(PARSER_REPAIRED, **(consts or {})), fac=None)
-    elif module == "Trace_Display":
+    elif module in ("Trace_Display", "Trace_Facts", "Trace_Codec", "Trace_Cli"):
         write_cfg(cfg, dict(consts or {}), fac=None)
+    elif module in ("Trace_Laws", "Trace_Words"):
+        write_cfg(cfg, dict({"ZeroEntriesKept": "FALSE"}, **(consts or {})), fac=fac)
     else:
         write_cfg(cfg, dict(DEFAULT_CONSTS, **(consts or {})), fac=fac)
     if len(recs) > chunk:      # balance the chunks over the parallel TLC processes
@@ -109,7 +111,7 @@ def validate(chk, path, name, module="Trace_Lang", consts=None, fac="UStdFacR", 
         res.decided += summary[0]["decided"]
         for tag, v in t.vecs:
             if tag == "MISMATCH":
-                res.mismatches.append({"id": v["id"], "problems": v["problems"], "rec": by_id.get(v["id"])})
+                res.mismatches.append({"id": v["id"], "problems": v["problems"], "rec": by_id.get(v["id"]), "extra": v})
         chk.model("%s(%s chunk %d: %d records)" % (module, label or name, i, len(chunks[i])), t, "trace validation")
     chk.cov["traces_validated_against_impl"] += res.records
     return res
@@ -226,7 +228,7 @@ def _gen_numeric(rnd, depth, maxdigits, big, allow_dz):
         c = rnd.random()
         if allow_dz and c < 0.05:
             return "0", 0
-        n = rnd.randint(1, 6)
+        n = rnd.randint(1, 6) if rnd.random() < 0.85 else rnd.choice([7, 9, 10, 12, 14, 15, 20])
         if rnd.random() < 0.35:
             return "-%d" % n, n
         return str(n), n
